@@ -453,4 +453,30 @@ def r15_8(ctx):
     ctx.ob("R15.8", "append:other-into-self", okd, f.loc(), "members drained from `other` are inserted into `self`")
 
 
-RULES = [("R15.1", r15_a), ("R15.2", r15_2), ("R15.3", r15_3), ("R15.4", r15_4), ("R15.5", r15_5), ("R15.6", r15_6), ("R15.7", r15_7), ("R15.8", r15_8)]
+def r15_9(ctx):
+    """insertion overwrites: the value handed to Value::insert / Object::insert goes into the map through an overwriting
+    `insert`, never through a keep-the-old-one operation (entry().or_insert, try_insert)"""
+    prog = ctx.prog()
+    n = 0
+    for name in ("value::node::Value::insert", "value::object::Object::insert"):
+        f = prog.find(name, required=False)
+        if f is None:
+            continue
+        n += 1
+        vparams = [i for i in range(1, f.argc + 1) if f.locals[i]["ty"].endswith("value::node::Value") or f.locals[i]["ty"] == "V"]
+        keep = []
+        over = []
+        for g in prog.with_closures(f):
+            for b, t in g.calls():
+                nm = t["callee"].rsplit("::", 1)[-1]
+                if nm in ("or_insert", "or_insert_with", "or_insert_with_key", "or_default", "try_insert"):
+                    keep.append(t)
+                if nm in ("insert", "insert_full"):
+                    over.append(t)
+        ctx.ob("R15.9", f"{short(f.id)}:overwrites", bool(over) and not keep, f.loc(keep[0]["ln"] if keep else None),
+               "the new value replaces an existing member of the same name" if over and not keep else
+               "the value is stored with a keep-the-old-one operation: inserting under an existing name drops the new value (the map model overwrites)")
+    ctx.floor("R15.9", "insertion helpers", n, 2)
+
+
+RULES = [("R15.1", r15_a), ("R15.2", r15_2), ("R15.3", r15_3), ("R15.4", r15_4), ("R15.5", r15_5), ("R15.6", r15_6), ("R15.7", r15_7), ("R15.8", r15_8), ("R15.9", r15_9)]
